@@ -14,46 +14,73 @@ type corner struct {
 	V          int64
 	VT, VN     int64
 	HasT, HasN bool
+	Spell      int // 0: canonical decimal spelling; otherwise an id unique per distinct token text of the file
 }
 
 type line struct {
-	Kind string // v vt vn g usemtl f mtllib o other
+	Kind string // v vt vn g usemtl f fn short mtllib o other
 	W    []uint32
 	Name []string
 	C    [3]corner
+	Cs   []corner // fn: an f line with a corner count other than 3
 }
 
 func f32w(x float64) uint32 { return math.Float32bits(float32(x)) }
 
+func atoi(s string) (int64, error) { return strconv.ParseInt(s, 10, 64) } // what strconv.Atoi accepts on 64 bit
+
+// parseCorner follows the three branches of the reader's token grammar (no "/", "//", "/"), but is written
+// independently; tokens whose treatment by the reader is a quirk rather than OBJ ("1//2//3", "1/2/3/4") are
+// rejected, i.e. the whole input is left out of the line-record model.
 func parseCorner(tok string) (corner, error) {
 	var c corner
+	var err error
+	switch {
+	case !strings.Contains(tok, "/"):
+		c.V, err = atoi(tok)
+		return c, err
+	case strings.Contains(tok, "//"):
+		parts := strings.Split(tok, "//")
+		if len(parts) != 2 {
+			return c, fmt.Errorf("corner %q", tok)
+		}
+		if c.V, err = atoi(parts[0]); err != nil {
+			return c, err
+		}
+		if parts[1] != "" {
+			c.VN, err = atoi(parts[1])
+			c.HasN = true
+		}
+		return c, err
+	}
 	parts := strings.Split(tok, "/")
 	if len(parts) > 3 {
 		return c, fmt.Errorf("corner %q", tok)
 	}
-	v, err := strconv.ParseInt(parts[0], 10, 64)
-	if err != nil {
+	if c.V, err = atoi(parts[0]); err != nil {
 		return c, err
 	}
-	c.V = v
-	if len(parts) >= 2 && parts[1] != "" {
-		t, err := strconv.ParseInt(parts[1], 10, 64)
-		if err != nil {
-			return c, err
-		}
-		c.VT, c.HasT = t, true
+	if c.VT, err = atoi(parts[1]); err != nil {
+		return c, err
 	}
-	if len(parts) == 2 && parts[1] == "" {
-		return c, fmt.Errorf("corner %q", tok)
-	}
+	c.HasT = true
 	if len(parts) == 3 {
-		n, err := strconv.ParseInt(parts[2], 10, 64)
-		if err != nil {
-			return c, err
-		}
-		c.VN, c.HasN = n, true
+		c.VN, err = atoi(parts[2])
+		c.HasN = true
 	}
-	return c, nil
+	return c, err
+}
+
+func canonical(c corner) string {
+	switch {
+	case c.HasT && c.HasN:
+		return fmt.Sprintf("%d/%d/%d", c.V, c.VT, c.VN)
+	case c.HasT:
+		return fmt.Sprintf("%d/%d", c.V, c.VT)
+	case c.HasN:
+		return fmt.Sprintf("%d//%d", c.V, c.VN)
+	}
+	return strconv.FormatInt(c.V, 10)
 }
 
 func floats(toks []string, n int) ([]uint32, error) {
@@ -74,6 +101,28 @@ func floats(toks []string, n int) ([]uint32, error) {
 // tokenise splits OBJ text into line records; blank lines carry no record (both readers skip them).
 func tokenise(text string) ([]line, error) {
 	var out []line
+	spell := map[string]int{}
+	corn := func(tok string) (corner, error) {
+		c, err := parseCorner(tok)
+		if err == nil && canonical(c) != tok {
+			if spell[tok] == 0 {
+				spell[tok] = len(spell) + 1
+			}
+			c.Spell = spell[tok]
+		}
+		return c, err
+	}
+	short := func(toks []string, n int) bool { // too few numbers, all of them well formed: the reader panics
+		if len(toks) >= n {
+			return false
+		}
+		for _, t := range toks {
+			if _, err := strconv.ParseFloat(t, 32); err != nil {
+				return false
+			}
+		}
+		return true
+	}
 	for _, raw := range strings.Split(text, "\n") {
 		raw = strings.TrimSuffix(raw, "\r")
 		fs := strings.Fields(raw)
@@ -85,20 +134,36 @@ func tokenise(text string) ([]line, error) {
 		switch fs[0] {
 		case "v", "vn":
 			l.Kind = fs[0]
-			l.W, err = floats(fs[1:], 3)
+			if short(fs[1:], 3) {
+				l.Kind = "short"
+			} else {
+				l.W, err = floats(fs[1:], 3)
+			}
 		case "vt":
 			l.Kind = "vt"
-			l.W, err = floats(fs[1:], 2)
+			if short(fs[1:], 2) {
+				l.Kind = "short"
+			} else {
+				l.W, err = floats(fs[1:], 2)
+			}
 		case "g", "usemtl", "mtllib", "o":
 			l.Kind = fs[0]
 			l.Name = fs[1:]
 		case "f":
 			l.Kind = "f"
 			if len(fs) != 4 {
-				return nil, fmt.Errorf("face with %d corners: %q", len(fs)-1, raw)
+				l.Kind = "fn"
+				for _, t := range fs[1:] {
+					var c corner
+					if c, err = corn(t); err != nil {
+						break
+					}
+					l.Cs = append(l.Cs, c)
+				}
+				break
 			}
 			for k := 0; k < 3; k++ {
-				l.C[k], err = parseCorner(fs[1+k])
+				l.C[k], err = corn(fs[1+k])
 				if err != nil {
 					break
 				}
@@ -136,7 +201,7 @@ func coqCorner(c corner) string {
 	if c.HasN {
 		n = "Some " + coqZ(c.VN)
 	}
-	return fmt.Sprintf("(%s,%s,%s)", coqZ(c.V), t, n)
+	return fmt.Sprintf("(%s,%s,%s,%d%%N)", coqZ(c.V), t, n, c.Spell)
 }
 func coqLine(l line) string {
 	switch l.Kind {
@@ -156,6 +221,14 @@ func coqLine(l line) string {
 		return "O " + coqName(l.Name)
 	case "f":
 		return fmt.Sprintf("F %s %s %s", coqCorner(l.C[0]), coqCorner(l.C[1]), coqCorner(l.C[2]))
+	case "fn":
+		items := make([]string, len(l.Cs))
+		for i, c := range l.Cs {
+			items[i] = coqCorner(c)
+		}
+		return "Fn [" + strings.Join(items, ";") + "]"
+	case "short":
+		return "Short"
 	}
 	return "Other"
 }
